@@ -173,6 +173,9 @@ add("z1", Z(3, "", "code here"), [[("first", []), ("rel", ["```"]), ("raw", ["co
 add("zpy", Z(3, "python", "a -> b", "  k::v # c"), [[("first", []), ("rel", ["```", "python"]), ("raw", ["a -> b"]), ("raw", ["  k::v # c"]), ("rel", ["```"])]], "core")
 add("z4", Z(4, "", "```", "===END==="), [[("first", []), ("rel", ["````"]), ("raw", ["```"]), ("raw", ["===END==="]), ("rel", ["````"])]], "full")
 add("ztrail", Z(3, "", "trail  ", "tab{U0009}"), [[("first", []), ("rel", ["```"]), ("raw", ["trail  "]), ("raw", ["tab", "U0009"]), ("rel", ["```"])]], "core")
+# a zone that SHOWS a seal section (documentation about sealing): its lines are content, never structure
+add("zseal", Z(3, "", "{U00A7}SEAL::SEAL", "  SCOPE::LINES[1,2]", '  HASH::"0000"'), [[("first", []), ("rel", ["```"]), ("raw", [SEC, "SEAL::SEAL"]), ("raw", ["  SCOPE::LINES[1,2]"]),
+                                                                                     ("raw", ['  HASH::"0000"']), ("rel", ["```"])]], "core")
 add("zempty", Z(3, "", ), [[("first", []), ("rel", ["```"]), ("rel", ["```"])]], "core")
 add("ztab", Z(3, "txt", "{U0009}x", "cafe{U0301}", 'q"\\n'), [[("first", []), ("rel", ["```", "txt"]), ("raw", ["U0009", "x"]), ("raw", ["cafe", "U0301"]), ("raw", ['q"\\n']), ("rel", ["```"])]], "full")
 add("zblank3", Z(3, "", "a  ", "", "", "", "{U00A7}1::X", "{U00A7}2::Y"), [[("first", []), ("rel", ["```"]), ("raw", ["a  "]), ("raw", []), ("raw", []), ("raw", []),
